@@ -186,6 +186,24 @@ func genC04(seed uint64, tier string) *c04Scenario {
 			s.Streams = append(s.Streams, st)
 		}
 	}
+	if s.Class == "A" && r.Chance(1, 7) && netBudget(s.Net, 600000) >= 600000 {
+		// data for streams the server has already closed: handlers return at once
+		// while (network latency) a window's worth of DATA is still in flight;
+		// connection-level credit for those bytes must still come back, or the
+		// streams that start later starve
+		s.Net.LatencyNs = int64(core.Pick(r, 1000000, 5000000, 40000000))
+		if s.Net.SegMax == 0 {
+			s.Net.SegMax = 20000
+		}
+		s.Server.ConnWindow = int32(core.Pick(r, 0, 65535, 70000))
+		s.Streams = s.Streams[:0]
+		for i := r.Range(2, 4); i > 0; i-- {
+			s.Streams = append(s.Streams, c04Stream{HMode: "none", Msgs: []int{r.Range(60000, 150000)}, HCode: core.Pick(r, 0, 5)})
+		}
+		for i := r.Range(1, 2); i > 0; i-- {
+			s.Streams = append(s.Streams, c04Stream{HMode: "all", StartNs: int64(core.Pick(r, 50000000, 200000000)), Msgs: []int{r.Range(50000, 100000), r.Range(1, 50000)}})
+		}
+	}
 	if s.Class == "B" {
 		for k := r.Range(1, 2); k > 0; k-- {
 			st := &s.Streams[r.Intn(n)]
